@@ -128,6 +128,14 @@ Theorem C19_update_conf_invariant : forall def user r,
   wfd def = true -> update_conf def user = Some r -> wfd r = true.
 Proof. exact update_conf_wf. Qed.
 
+(* update_conf NEVER RAISES on two dictionaries, whatever they hold: a dictionary given where the
+   existing value is a scalar, a list or None (or where there is none) is merged into an empty
+   dictionary and takes its place -- the schema then decides -- instead of ending in TypeError
+   (non-empty) or being silently dropped for the default (empty), as before the repair of
+   update_conf (finding empty_dict_value_replaced_by_default of C17). *)
+Theorem C19_update_conf_total : forall def user, exists r, update_conf def user = Some r.
+Proof. exact update_conf_total. Qed.
+
 (* SCALARS ONLY.  A dictionary accepted by a json-checker dictionary schema none of whose
    entries takes a dictionary (the boolean test above) holds scalars / lists only. *)
 Theorem C19_accepted_values_are_scalars : forall orc ks d,
@@ -168,11 +176,17 @@ Section Config.
     input_check gen_defs orc grid_ok images_ok c = Some c.
   Proof. exact (input_check_fix gen_defs orc grid_ok images_ok). Qed.
 
-  (* (a) THE GUARD ALWAYS HOLDS.  For EVERY user configuration that check_conf accepts -- no
-     hypothesis on it: any association list -- the completed input section is
-     {"input": {"left": scalars, "right": scalars}} extending the defaults in place, no completed
-     step holds a "NaN" string, every completed step holds scalars / lists only, no key twice. *)
-  Theorem C19_guard_holds : forall user cfg, check_conf user = Some cfg -> guard user = true.
+  (* (a) THE GUARD ALWAYS HOLDS.  For EVERY user configuration that check_conf accepts -- any
+     association list whose "input" dictionary gives "left" and "right" at most once
+     ([input_keys_once]: it is a Python dict; nothing is asked of the other dictionaries) -- the
+     completed input section is {"input": {"left": scalars, "right": scalars}} extending the
+     defaults in place, no completed step holds a "NaN" string, every completed step holds
+     scalars / lists only, no key twice.
+     (Since update_conf keeps a dictionary given where the value is not one, the association
+     list "left": 5, "left": {...} -- no Python dict -- would be completed in the user's key order,
+     not the defaults'; before that repair the second item raised.) *)
+  Theorem C19_guard_holds : forall user cfg,
+    input_keys_once user = true -> check_conf user = Some cfg -> guard user = true.
   Proof.
     exact (replay_guard_holds gen_defs orc grid_ok images_ok bands_of classes interpolation_methods
              C19_classes_wf (proj1 C19_scalars_wf) (proj2 C19_scalars_wf)).
@@ -185,24 +199,26 @@ Section Config.
      dispatch, the band / interpolation / grid rules and the second round with the images
      exchanged), and a "margins" entry of any value is ignored. *)
   Theorem C19_checked_cfg_fixpoint : forall user cfg,
+    input_keys_once user = true ->
     check_conf user = Some cfg ->
     check_conf cfg = Some cfg /\ forall m, check_conf (set_key "margins" m cfg) = Some cfg.
   Proof.
-    intros user cfg H.
+    intros user cfg KO H.
     exact (full_check_fixpoint gen_defs orc grid_ok images_ok bands_of classes interpolation_methods C19_classes_wf
-             user cfg H (C19_guard_holds user cfg H)).
+             user cfg H (C19_guard_holds user cfg KO H)).
   Qed.
 
   (* THE CONFIGURATION AS RUN IS A FIXPOINT TOO: after the run has stored the suffix of each
      cost_volume_confidence step name under `indicator`. *)
   Theorem C19_cfg_as_run_fixpoint : forall user cfg,
+    input_keys_once user = true ->
     check_conf user = Some cfg ->
     check_conf (run_rewrites cfg) = Some (run_rewrites cfg)
     /\ forall m, check_conf (set_key "margins" m (run_rewrites cfg)) = Some (run_rewrites cfg).
   Proof.
-    intros user cfg H.
+    intros user cfg KO H.
     exact (full_check_rewritten gen_defs orc grid_ok images_ok bands_of classes interpolation_methods
-             C19_classes_wf C19_confidence_wf user cfg H (C19_guard_holds user cfg H)).
+             C19_classes_wf C19_confidence_wf user cfg H (C19_guard_holds user cfg KO H)).
   Qed.
 
   (* THE SAVED CONFIGURATION REPLAYS (level of the dictionaries handed to json.dump / returned by
@@ -211,17 +227,18 @@ Section Config.
      [saved] is the completed configuration as run plus the margins, feeding [saved] back is
      accepted and yields the same configuration, and main saves the same dictionary again. *)
   Theorem C19_saved_cfg_replays : forall user m saved,
+    input_keys_once user = true ->
     main m user = Some saved ->
     exists cfg, check_conf user = Some cfg
                 /\ saved = set_key "margins" m (run_rewrites cfg)       (* completed configuration as run + margins *)
                 /\ check_conf saved = Some (run_rewrites cfg)           (* fed back: accepted, same configuration *)
                 /\ main m saved = Some saved.                           (* and saved again unchanged *)
   Proof.
-    intros user m saved H.
+    intros user m saved KO H.
     assert (G : guard user = true).
     { unfold main_saved in H.
       destruct (full_check gen_defs orc grid_ok images_ok bands_of classes interpolation_methods user) as [cfg|] eqn:E;
-        [|discriminate]. exact (C19_guard_holds user cfg E). }
+        [|discriminate]. exact (C19_guard_holds user cfg KO E). }
     exact (main_saved_replays_rw gen_defs orc grid_ok images_ok bands_of classes interpolation_methods
              C19_classes_wf C19_confidence_wf user m saved H G).
   Qed.
@@ -254,6 +271,7 @@ Section ConfigFile.
      accepts what it loads and returns the same completed configuration, and main writes exactly
      the same text again. *)
   Theorem C19_saved_file_replays : forall m text out,
+    text_input_keys_once text = true ->       (* the "input" object gives "left" / "right" at most once *)
     main_file m text = Some out ->
     exists user cfg saved,
       parse text = Some (JDict user)
@@ -341,6 +359,7 @@ Print Assumptions C19_classes_wf.
 Print Assumptions C19_confidence_wf.
 Print Assumptions C19_scalars_wf.
 Print Assumptions C19_update_conf_invariant.
+Print Assumptions C19_update_conf_total.
 Print Assumptions C19_accepted_values_are_scalars.
 Print Assumptions C19_indicator_rewrite_accepted.
 Print Assumptions C19_input_section_replays.
